@@ -36,6 +36,8 @@ def n_cases(tier):
 
 def make_case(i, rng, tier):
     decl = D.gen_decl(rng, base=rng.choice(["Schema", "Schema", "DataClass"]))  # the statement is about data classes
+    # how the class options are written: an Options(...) instance, or the class form (also derived from a shared Options subclass)
+    decl["options_form"] = rng.choice([None, None, None, "class", "class-inherit"]) if decl["options"] else None
     inputs = [D.gen_input(rng, decl) for _ in range(6)]
     return {"decl": decl, "inputs": inputs}
 
